@@ -27,6 +27,7 @@
 #include <stdlib.h>
 #include <string.h>
 #include "vnacal_new_internal.h"
+#include "libvna_verif.h"
 
 
 /*
@@ -193,6 +194,9 @@ double _vnacal_new_solve_calc_pvalue(vnacal_new_solve_state_t *vnssp,
 	    /*
 	     * Normlize the residual to 1 standard deviation.
 	     */
+	    VERIF_GHOST_ASSERT(eq_cell == vnep->vne_row * m_columns +
+		    vnep->vne_column, "the variance of an equation's "
+		    "residual is taken from that equation's own measurement");
 	    divisor = _vnacommon_cabs2(vnmmp->vnmm_m_matrix[eq_cell]);
 	    divisor *= tracking * tracking;
 	    divisor += noise * noise;
@@ -272,6 +276,7 @@ double _vnacal_new_solve_calc_pvalue(vnacal_new_solve_state_t *vnssp,
      * If the result is small, we can reject the null hypothesis that
      * the data are consistent with the model.
      */
+    VERIF_CUT(pvalue_before_chisq);
     assert(!isnan(chisq));
     assert(chisq >= 0.0);
     return chisq_pvalue(df, chisq);
